@@ -367,10 +367,10 @@ fire("c09-subscript-uses-lookup-flag", ["C09"], DE,
      "        if self.include_lookups:\n            return {expr}",
      "T/DependencyMapper/map_subscript")
 fire("c09-descend-forgets-kwargs", ["C09"], DE,
-     "                    [self.rec(child, *args, **kwargs) for child in expr.parameters]\n"
+     "                    + [self.rec(child, *args, **kwargs) for child in expr.parameters]\n"
      "                    + [self.rec(val, *args, **kwargs) for name, val in\n"
      "                    expr.kw_parameters.items()]\n",
-     "                    [self.rec(child, *args, **kwargs) for child in expr.parameters]\n",
+     "                    + [self.rec(child, *args, **kwargs) for child in expr.parameters]\n",
      "T/DependencyMapper/map_call_with_kwargs/descend-args")
 fire("c09-composite-false-keeps-calls", ["C09"], DE,
      "            include_lookups = False\n            include_calls = False\n",
@@ -1498,11 +1498,21 @@ fire("c02-if-branches-swapped", ["C02"], EVF,
      "            return self.rec(expr.then)",
      "E/EvaluationMapper/If")
 fire("c02-logical-and-is-any", ["C02"], EVF,
-     "    def map_logical_and(self, expr):\n"
-     "        return all(self.rec(ch) for ch in expr.children)",
-     "    def map_logical_and(self, expr):\n"
-     "        return any(self.rec(ch) for ch in expr.children)",
+     "            result = self.rec(ch)\n            if not result:\n"
+     "                return result",
+     "            result = self.rec(ch)\n            if result:\n"
+     "                return result",
      "E/EvaluationMapper/LogicalAnd")
+fire("c02-logical-or-is-any-again", ["C02"], EVF,
+     "        result = False\n        for ch in expr.children:\n"
+     "            result = self.rec(ch)\n            if result:\n"
+     "                return result\n        return result",
+     "        return any(self.rec(ch) for ch in expr.children)",
+     "E/EvaluationMapper/LogicalOr")
+fire("c02-logical-or-empty-is-true", ["C02"], EVF,
+     "        result = False\n        for ch in expr.children:",
+     "        result = True\n        for ch in expr.children:",
+     "E/EvaluationMapper/LogicalOr")
 fire("c02-min-is-max", ["C02"], EVF,
      "    def map_min(self, expr):\n        return min(self.rec(child) for child in expr.children)",
      "    def map_min(self, expr):\n        return max(self.rec(child) for child in expr.children)",
@@ -1798,14 +1808,17 @@ silent_multi("refactor-printer-renumber", ["C06", "C13", "C14"], SF,
 silent("refactor-depmapper-branch-order", ["C09"], DE,
        "        if self.include_calls == \"descend_args\":\n"
        "            return self.combine(\n"
-       "                    [self.rec(child, *args, **kwargs) for child in expr.parameters])\n"
+       "                    self._rec_computed_head(expr, *args, **kwargs)\n"
+       "                    + [self.rec(child, *args, **kwargs)\n"
+       "                        for child in expr.parameters])\n"
        "        elif self.include_calls:\n            return {expr}\n        else:\n"
        "            return super().map_call(expr, *args, **kwargs)",
        "        if not self.include_calls:\n"
        "            return super().map_call(expr, *args, **kwargs)\n"
        "        if self.include_calls != \"descend_args\":\n            return {expr}\n"
        "        return self.combine(\n"
-       "                [self.rec(child, *args, **kwargs) for child in expr.parameters])")
+       "                self._rec_computed_head(expr, *args, **kwargs)\n"
+       "                + [self.rec(child, *args, **kwargs) for child in expr.parameters])")
 silent("refactor-diff-rename-locals", ["C10"], DIF,
        "        f = expr.numerator\n        g = expr.denominator\n"
        "        df = self.rec(f, *args)\n        dg = self.rec(g, *args)\n"
@@ -2780,3 +2793,18 @@ fire("c09-descend-args-skips-computed-head", ["C09"], "pymbolic/mapper/dependenc
      "                    [self.rec(child, *args, **kwargs)\n"
      "                        for child in expr.parameters])",
      "T/DependencyMapper/map_call/descend-args/computed-head")
+fire("c20-stream-b-walked-twice", ["C20"], "pymbolic/imperative/transform.py",
+     "    # walked twice below: may be a one-shot iterable\n    statements_b = list(statements_b)\n",
+     "",
+     "P/disambiguate_identifiers/stream-walked-once:statements_b")
+fire("c20-dot-edges-unquoted", ["C20"], "pymbolic/imperative/utils.py",
+     """            lines.append(f'"{stmt_1}" -> "{stmt_2}"')""",
+     """            lines.append(f"{stmt_1} -> {stmt_2}")""",
+     "T/dot/edge-ids-spelled-like-node-ids")
+silent("c20-silent-streams-materialised-as-tuples", ["C20"], "pymbolic/imperative/transform.py",
+       "    statements_b = list(statements_b)\n\n    id_a",
+       "    statements_b = tuple(statements_b)\n\n    id_a")
+fire("c17-parsed-list-hash-memoized", ["C17"], "pymbolic/parser.py",
+     "    def __hash__(self) -> int:  # type: ignore[override]\n        result = hash(type(self).__name__)",
+     "    @pytools.memoize_method\n    def __hash__(self) -> int:  # type: ignore[override]\n        result = hash(type(self).__name__)",
+     "S/pickle/memoized-hash/FinalizedList")
